@@ -142,6 +142,22 @@ impl Source {
                 let pdu = rng.bytes(plen);
                 let (ptype, exts): (u16, Option<Vec<Extension>>) = if self.signalling && rng.chance(1, 8) {
                     ([0x0081u16, 0x0082][rng.below(2)], None)
+                } else if self.signalling && rng.chance(1, 8) {
+                    // encap_ext with a chain that ends in a final mandatory extension (its id is the protocol type),
+                    // optionally preceded by an optional extension
+                    let pt = [0x0081u16, 0x0082][rng.below(2)];
+                    let mut v = Vec::new();
+                    if rng.chance(1, 2) {
+                        let d = rng.bytes(2);
+                        if let Ok(e) = Extension::new(0x0200 | rng.byte() as u16, &d) {
+                            v.push(e);
+                        }
+                    }
+                    match Extension::new(pt, &[]) {
+                        Ok(e) => v.push(e),
+                        Err(_) => v.clear(),
+                    }
+                    (pt, if v.is_empty() { None } else { Some(v) })
                 } else if rng.chance(1, 8) {
                     let id = 0x0100 | rng.below(256) as u16;
                     (gen_user_ptype(rng), Extension::new(id, &[]).ok().map(|e| vec![e]))
@@ -242,7 +258,7 @@ pub fn gens(cx: &Cx) -> Vec<crate::Gen> {
     vec![crate::Gen { name: "frames", count: cx.n(12_000, 1_200_000), exhaustive: false }, crate::Gen { name: "tails", count: cx.n(20_000, 1_000_000), exhaustive: false }]
 }
 
-pub const RULE: &str = "frames: key -> a seeded traffic source (real encapsulator, up to 4 PDUs in flight on fragment ids distinct modulo the memory slots (4 slots; one run in eight 255 slots with ids 0, 255, 1, 2, where 0 and 255 share a slot), one new PDU in ten abandons a PDU in flight and takes over its fragment id with the same size and type but another label, PDUs of 0..6000 bytes, labels from a 7-label alphabet (incl. 3- and 6-byte labels sharing their leading bytes) plus explicit re-use, optional extensions, signalling protocol types 0x0081/0x0082 when the receiver uses the signalisation manager) fills 1..6 consecutive frames of 64..16200 bytes with up to 40 packets each (trains continue across frames, label memories reset at frame boundaries on both sides), followed by 0..64 zero bytes (one frame in ten: 4090..9000 zero bytes); some packets are then corrupted in a listed way (bad CRC trailer, another fragment id incl. ids mapping to the same memory slot) and receivers sometimes have too few or too small storage buffers (PDUs overflow at an intermediate / end fragment); a walker receiver advances by consumed lengths, a twin receiver gets each packet alone. tails: one packet (after its train prefix) followed by nothing / zeros / 0xFF / random bytes / another packet on identically prepared receivers. Every decap / peek call is an evaluation; non-trivial = a frame with at least 2 packets (or a tail variant set) fully compared; fingerprint = hash of the frame bytes.";
+pub const RULE: &str = "frames: key -> a seeded traffic source (real encapsulator, up to 4 PDUs in flight on fragment ids distinct modulo the memory slots (4 slots; one run in eight 255 slots with ids 0, 255, 1, 2, where 0 and 255 share a slot), one new PDU in ten abandons a PDU in flight and takes over its fragment id with the same size and type but another label, PDUs of 0..6000 bytes, labels from a 7-label alphabet (incl. 3- and 6-byte labels sharing their leading bytes) plus explicit re-use, optional extensions, signalling protocol types 0x0081/0x0082 when the receiver uses the signalisation manager, through encap and through encap_ext with a chain ending in that final mandatory extension) fills 1..6 consecutive frames of 64..16200 bytes with up to 40 packets each (trains continue across frames, label memories reset at frame boundaries on both sides), followed by 0..64 zero bytes (one frame in ten: 4090..9000 zero bytes); some packets are then corrupted in a listed way (bad CRC trailer, another fragment id incl. ids mapping to the same memory slot) and receivers sometimes have too few or too small storage buffers (PDUs overflow at an intermediate / end fragment); a walker receiver advances by consumed lengths, a twin receiver gets each packet alone. tails: one packet (after its train prefix) followed by nothing / zeros / 0xFF / random bytes / another packet on identically prepared receivers. Every decap / peek call is an evaluation; non-trivial = a frame with at least 2 packets (or a tail variant set) fully compared; fingerprint = hash of the frame bytes.";
 
 pub fn run_key(cx: &Cx, mask: u32, gen: &str, key: u64, rep: &mut Report) {
     let replay_s = format!("gen={} key={} seed={} profile={}", gen, key, cx.seed, cx.profile);
